@@ -1818,11 +1818,15 @@ size_t rtosc_scan_arg_val(const char* src,
 
                 // lossless format is appended in parentheses?
                 //  => take it directly from there
-                if(skip_fmt(&src, "%*f (%n"))
+                // (the fraction starts with a period, anything else is the
+                //  next argument)
+                if(*src == '.' && skip_fmt(&src, "%*f (%n"))
                 {
-                    sscanf(src, " ... + 0x%8"PRIx64"p-32 s )%n",
-                           &secfracs, &rd);
+                    // the printer writes the fraction as hex float
+                    rd = 0;
+                    sscanf(src, " ... + %f s )%n", &secfracsf, &rd);
                     src += rd;
+                    secfracs = rtosc_float2secfracs(secfracsf);
                 }
                 // float number, but not lossless?
                 //  => convert it to fractions of seconds
